@@ -758,14 +758,35 @@ func runSchedule(line string, base string, idx int, backups bool) (string, []vh.
 			}
 		}
 	}
-	// let the idle cleanup goroutines go
-	c.mu.Lock()
-	for _, tm := range c.timers {
-		tm.Reset(0)
-	}
-	c.mu.Unlock()
-	if dl == 0 {
-		time.Sleep(2 * time.Millisecond)
+	// let the cleanup goroutines unload and exit before the directory is removed (a goroutine that
+	// has just been sent `false` re-arms its timer, so fire repeatedly); goroutines stuck on a lock
+	// (deadlocked schedule) are left behind
+	tdl := time.Now().Add(800 * time.Millisecond)
+	for {
+		c.mu.Lock()
+		for _, tm := range c.timers {
+			tm.Reset(0)
+		}
+		gids := make([]int64, 0, len(c.timers))
+		for gid := range c.timers {
+			gids = append(gids, gid)
+		}
+		c.mu.Unlock()
+		time.Sleep(200 * time.Microsecond)
+		snap := snapshot()
+		remaining := 0
+		for _, gid := range gids {
+			if g, ok := snap[gid]; ok {
+				k := blockedKind(g)
+				if k == "store" || k == "wlock" || k == "rlock" || k == "flock" {
+					continue
+				}
+				remaining++
+			}
+		}
+		if remaining == 0 || time.Now().After(tdl) {
+			break
+		}
 	}
 	if !stopped || true {
 		trace = append(trace, fmt.Sprintf("end=%s/%s/dl=%d", strings.Join(sts, ","), obs, dl))
@@ -812,8 +833,29 @@ func worker() {
 		}
 		idx, _ := strconv.Atoi(parts[0])
 		tr, fails := runSchedule(parts[2], base, idx, parts[1] == "1")
+		if os.Getenv("C12_DEBUG") != "" {
+			fmt.Fprintf(os.Stderr, "idx %d goroutines %d\n", idx, runtime.NumGoroutine())
+		}
 		enc.Encode(result{idx, tr, fails})
 		out.Flush()
+	}
+	if os.Getenv("C12_DEBUG") != "" {
+		time.Sleep(200 * time.Millisecond)
+		cnt := map[string]int{}
+		for _, g := range snapshot() {
+			l := strings.Split(g.stack, "\n")
+			key := g.state
+			for _, x := range l {
+				if strings.Contains(x, "semadb") || strings.Contains(x, "main.") {
+					key += " @ " + strings.TrimSpace(x)
+					break
+				}
+			}
+			cnt[key]++
+		}
+		for k, v := range cnt {
+			fmt.Fprintf(os.Stderr, "LEAK %d %s\n", v, k)
+		}
 	}
 }
 
@@ -870,6 +912,10 @@ func runForced(lines []string, seed uint64, par int) ([]string, []vh.OracleFailu
 			defer wg.Done()
 			for int(nextIdx.Load()) < len(lines) {
 				cmd := exec.Command(self, "-worker")
+				// one P per child: the controller and the goroutine it released hand the processor to each
+				// other directly, which is faster and insensitive to machine load (the schedule is
+				// sequential anyway); the unforced stress children keep the default
+				cmd.Env = append(os.Environ(), "GOMAXPROCS=1")
 				stdin, _ := cmd.StdinPipe()
 				stdout, _ := cmd.StdoutPipe()
 				var errBuf tailBuf
